@@ -263,6 +263,29 @@ def check(ctx) -> None:
             ctx.check("C14.index", gi, bad is None, f"bias={bias}, population of {n}: {bad}", what=f"bias={bias} len={n}: indices in range and monotone", stmt=f"[partition] bias={bias} len={n}")
 
 
+    # selection frequency over an equidistant grid of draws: a better rank never gets fewer draws than a worse one
+    DRAWS = 420
+    for bias in (1.0, 1.5, 2.0):
+        for n in (3, 5, 10):
+            counts = [0] * n
+            bad = None
+            for k in range(DRAWS):
+                r = (k + 0.5) / DRAWS
+                it = peval.Interp(resolver=resolver, externs={"randomness.next_float": lambda r=r: r, "sqrt": __import__("math").sqrt})
+                try:
+                    idx = it.run_function(gi, [peval.Obj("RankSelection", fields={"bias": bias}), list(range(n))], {}, smod)
+                    counts[idx] += 1
+                except (peval.Undecided, peval.Raises, IndexError, TypeError) as exc:
+                    bad = f"r={r}: {exc}"
+                    break
+            if bad is not None:
+                ctx.undecide("C14.index", gi, f"frequency bias={bias} len={n}: {bad}")
+                continue
+            slack = 2  # grid effects at bucket borders
+            worse_preferred = [(i, counts[i], counts[i + 1]) for i in range(n - 1) if counts[i] + slack < counts[i + 1]]
+            ctx.check("C14.index", gi, not worse_preferred, f"bias={bias}, population of {n}: over {DRAWS} equidistant draws the indices are chosen {counts} times - index {worse_preferred[0][0] + 1 if worse_preferred else ''} (a worse rank) is chosen more often than index {worse_preferred[0][0] if worse_preferred else ''}: rank selection prefers a worse individual over a better one", what=f"bias={bias} len={n}: frequencies non-increasing {counts}", stmt=f"[frequency] bias={bias} len={n}")
+
+
 class _OSet(list):
     """Insertion-ordered set stand-in for the evaluator (OrderedSet semantics: add ignores duplicates)."""
 
